@@ -3,6 +3,9 @@
 #   confirm each new seeded change from /tmp/mut/<id> (scratch worktree), store it under seeded/, then run the
 #   property's quick check against a scratch worktree carrying the change; one line per change in out/process_muts.txt
 cd "$(dirname "$0")/.." || exit 2
+# the checks run from a scratch copy of /verif, so that /verif can be edited while they run
+VROOT=/tmp/vcopy; export VROOT
+mkdir -p $VROOT && rsync -a --delete --exclude .git --exclude out --exclude seeded ./ $VROOT/ && mkdir -p $VROOT/out
 for id in "$@"; do
   p=$(echo $id | cut -c1-3)
   c=$(tools/confirm_mut.sh /tmp/mut/$id 2>&1 | tail -1)
